@@ -171,6 +171,8 @@ impl SideMetadataSpec {
                     // Get a mask that the bits we need to zero are set to zero, and the other bits are 1.
                     let mask: u8 =
                         u8::MAX.checked_shl(bit_end as u32).unwrap_or(0) | !(u8::MAX << bit_start);
+                    #[cfg(feature = "verif")]
+                    crate::util::verif::rt::sched_point(crate::util::verif::rt::Kind::AtomicRmw, addr.as_usize());
                     unsafe { addr.as_ref::<AtomicU8>() }.fetch_and(mask, Ordering::SeqCst);
                     false
                 }
@@ -208,6 +210,8 @@ impl SideMetadataSpec {
                     // Get a mask that the bits we need to set are 1, and the other bits are 0.
                     let mask: u8 = !(u8::MAX.checked_shl(bit_end as u32).unwrap_or(0))
                         & (u8::MAX << bit_start);
+                    #[cfg(feature = "verif")]
+                    crate::util::verif::rt::sched_point(crate::util::verif::rt::Kind::AtomicRmw, addr.as_usize());
                     unsafe { addr.as_ref::<AtomicU8>() }.fetch_or(mask, Ordering::SeqCst);
                     false
                 }
